@@ -425,6 +425,25 @@ def run(tier, seed, replay=None):
             corr_bad += {'what': 'L1: %s differs from the exact model: %s vs %s' % (kind, want.tolist(), got.tolist()), 'op': kind,
                         'args': O.spec_json(x) if kind == 'center' else {'order': x['order'], 'knots': [str(v) for v in x['knots']], 'periodic': x['periodic']}}
     dist['op']['L1 comparisons'] = nl1
+    # ---- planar surfaces of ANY shape (random nets fold over: the Jacobian changes sign): the area is a property of the point set
+    # traced with multiplicity, so the surface lying in the plane z = 0 of 3-space (and then moved rigidly) has the same area.
+    # Both routes use the same Gauss points, hence agreement to rounding, not to quadrature accuracy
+    for it in range(reps):
+        spec = O.gen_obj(rng, pardim=2, dim=2, kinds=['open'], pmax=4, nint_max=2, rational=rng.random() < 0.3)
+        o = O.make_impl(spec)
+        args = dict(obj=O.spec_json(spec))
+        nontriv.add(C.case_hash(args))
+        try:
+            a2 = float(o.area())
+            o3 = o.clone().set_dimension(3)
+            o3.rotate(rng.choice([0.5, 1.0, 2.5]), rng.choice([(1, 0, 0), (1, 2, 2), (0, 1, 0)]))
+            o3.translate([1.5, -2.0, 0.25])
+            a3 = float(o3.area())
+            count('area in the plane vs in space', measure='area', pardim=2, rational=spec['rational'])
+            if not (np.isfinite(a2) and abs(a2 - a3) <= 1e-9 * max(1.0, abs(a3))):
+                fail('area', args, 'the area of a planar surface is %r, of the same surface moved rigidly in 3-space %r' % (a2, a3))
+        except Exception as e:  # noqa
+            fail('area', args, 'planar vs spatial area raised %s' % type(e).__name__)
     rc = V.finish(l0, corr_bad)
     C.write_evidence(PID, tier, seed, l0, {
         'evaluations': evals, 'distinct_nontrivial': len(nontriv),
